@@ -324,7 +324,7 @@ func (f *Frame) callbackCall(fn Term, args []Val, sig *types.Signature, st State
 	}
 	pname := f.w.AppFun("apppanics", sorts, SBool, 0)
 	panicked := vc.Define("cbpanics", App(pname, SBool, as...))
-	pv := vc.Fresh("pv", SIface)
+	pv := vc.Define("cbpv", App(f.w.AppFun("apppv", sorts, SIface, 0), SIface, as...))
 	f.exit(Exit{Panic: true, PC: vc.Define("pc", And(st.PC, panicked)), Heap: st.Heap, PV: pv})
 	nst := State{PC: vc.Define("pc", And(st.PC, Not(panicked))), Heap: st.Heap}
 	var res Val
@@ -402,6 +402,19 @@ func (f *Frame) bindContractNames(fc *FuncContract, callee *ssa.Function, fnVal 
 			bind(p.Name, args[off+i], ptypes[off+i])
 		}
 	}
+	// a method that implements an interface contract: the interface contract's
+	// parameter names (after self) alias the method's parameters positionally
+	if fc.Implements != "" {
+		if base := f.w.findIfaceContract(fc.Implements, fc.ScopePkg); base != nil && len(base.Params) > 1 {
+			bp := base.Params[1:]
+			off := len(args) - len(bp)
+			if off >= 0 {
+				for i, p := range bp {
+					bind(p.Name, args[off+i], ptypes[off+i])
+				}
+			}
+		}
+	}
 	if !fnVal.IsZero() {
 		vars["fn"] = SVal{T: fnVal}
 	}
@@ -429,6 +442,7 @@ func (f *Frame) applyContractFn(fc *FuncContract, callee *ssa.Function, name str
 			vars["self"] = sv
 		}
 	}
+	f.closureSummaries(args, st)
 	pre := &SpecEnv{W: f.w, Vars: vars, Heap: st.Heap, Old: st.Heap, Scope: fc.ScopePkg, Side: vc}
 	site := vc.Ordinal(f.label + "#pre@" + name)
 	for k, r := range clauses.requires {
@@ -497,7 +511,11 @@ func (f *Frame) applyContractFn(fc *FuncContract, callee *ssa.Function, name str
 			continue
 		}
 		vc.Trusted["definitional clause of "+name+": "+e.c.Src] = true
-		vc.Assume(Implies(And(st.PC, Not(panicked)), t))
+		if mentionsExit(e.c.E) {
+			vc.Assume(Implies(st.PC, t))
+		} else {
+			vc.Assume(Implies(And(st.PC, Not(panicked)), t))
+		}
 	}
 	if panicked.S != "false" {
 		f.exit(Exit{Panic: true, PC: vc.Define("pc", And(st.PC, panicked)), Heap: heap, PV: pv})
@@ -817,6 +835,7 @@ func (f *Frame) closureBindings(mc *ssa.MakeClosure) map[*ssa.FreeVar]Val {
 func (f *Frame) makeClosure(ins *ssa.MakeClosure, st State) (Val, State) {
 	fn := ins.Fn.(*ssa.Function)
 	r, h := f.allocRef(st, ins.Name())
+	r = f.vc.Alias("closure", r) // a constant: usable in quantifier patterns
 	st.Heap = h
 	id := f.w.FnID(fn)
 	f.vc.UseFnID(id)
@@ -902,9 +921,9 @@ func (f *Frame) builtin(b *ssa.Builtin, ins ssa.CallInstruction, st State) (Stat
 		// panic; nil when the function is not panicking.  The supported idiom calls
 		// recover() unconditionally at the start of the deferred function.
 		if f.dctx == nil {
-			f.fail("recover() outside a deferred call")
-			vc.Outside["recover outside deferred call"] = true
-			return st, Val{T: f.w.Sorts.Zero(SIface)}
+			// verified standalone: whether the caller is panicking is unknown, so the
+			// result is an arbitrary interface value (sound over-approximation)
+			return st, Val{T: vc.Fresh("recovered", SIface)}
 		}
 		if ins.Block().Index != 0 {
 			f.fail("conditional recover() is outside the subset")
@@ -1126,4 +1145,126 @@ func (f *Frame) onceDo(once, fn Val, callee *ssa.Function, st State, ins ssa.Cal
 	pcs := []Term{stA.PC, vc.Define("pc", after.PC)}
 	heap := f.mergeHeaps(pcs, []*Heap{stA.Heap, after.Heap})
 	return State{PC: vc.Define("pc", Or(pcs...)), Heap: heap}, Val{T: IntLit(0)}
+}
+
+// closureSummaries: a closure created in this frame and passed to a function
+// under contract is described to the callee's callback model (app/apppanics)
+// by the closure's OWN contract, which is verified separately against the
+// closure body.  For the closure value r and contract clauses E:
+//
+//	forall args. typing(args) && requires(args) ==> E[panics := apppanics(r,args), result_i := app_i(r,args)]
+//
+// evaluated in the heap of the call site (the callback model assumes callbacks
+// do not depend on state the callee changes; listed as an assumption).
+func (f *Frame) closureSummaries(args []Val, st State) {
+	vc := f.vc
+	for _, a := range args {
+		if a.Loc != nil || len(a.Tup) > 0 {
+			continue
+		}
+		cl, ok := f.closures[a.T.S]
+		if !ok {
+			continue
+		}
+		gfc := f.w.ContractOf(cl.fn)
+		if gfc == nil || gfc.Inline || gfc.ModAll || len(gfc.Modifies) > 0 {
+			continue
+		}
+		key := "cbsum!" + a.T.S
+		if f.vc.declared[key] {
+			continue
+		}
+		f.vc.declared[key] = true
+		n := vc.Ordinal("cbsum")
+		vars := map[string]SVal{}
+		var qv []Term
+		var typing []Term
+		as := []Term{a.T}
+		sorts := []string{"Int"}
+		bad := false
+		for i, p := range cl.fn.Params {
+			so := f.w.Sorts.SortOf(p.Type())
+			q := Term{fmt.Sprintf("cb!%d!%d", n, i), so}
+			qv = append(qv, q)
+			as = append(as, q)
+			sorts = append(sorts, string(so))
+			typing = append(typing, f.w.staticTypeFacts(p.Type(), q)...)
+			if p.Name() != "" && p.Name() != "_" {
+				vars[p.Name()] = SVal{T: q, Go: p.Type()}
+			}
+			if i < len(gfc.Params) && gfc.Params[i].Name != "" && gfc.Params[i].Name != "_" {
+				vars[gfc.Params[i].Name] = SVal{T: q, Go: p.Type()}
+			}
+		}
+		for fv, bv := range cl.bindings {
+			pt, ok := fv.Type().Underlying().(*types.Pointer)
+			if !ok {
+				if bv.Loc == nil && len(bv.Tup) == 0 {
+					vars[fv.Name()] = SVal{T: bv.T, Go: fv.Type()}
+				}
+				continue
+			}
+			if _, isStruct := pt.Elem().Underlying().(*types.Struct); isStruct && bv.Loc == nil {
+				vars[fv.Name()] = SVal{T: bv.T, Go: pt.Elem(), Ref: true}
+				continue
+			}
+			lv, ok := f.tryLoad(bv, pt.Elem(), st.Heap)
+			if !ok {
+				continue
+			}
+			vars[fv.Name()] = SVal{T: lv, Go: pt.Elem()}
+		}
+		sig := cl.fn.Signature
+		panicked := App(f.w.AppFun("apppanics", sorts, SBool, 0), SBool, as...)
+		if gfc.NoPanic || gfc.Pure {
+			vc.Assume(Forall(qv, Not(panicked), []Term{panicked}))
+		}
+		for i := 0; i < sig.Results().Len(); i++ {
+			t := sig.Results().At(i).Type()
+			so := f.w.Sorts.SortOf(t)
+			r := App(f.w.AppFun("app", sorts, so, i), so, as...)
+			sv := SVal{T: r, Go: t}
+			vars[fmt.Sprintf("result%d", i)] = sv
+			if sig.Results().Len() == 1 {
+				vars["result"] = sv
+			}
+			if nm := sig.Results().At(i).Name(); nm != "" && nm != "_" {
+				vars[nm] = sv
+			}
+		}
+		env := &SpecEnv{W: f.w, Vars: vars, Heap: st.Heap, Old: st.Heap, Scope: gfc.ScopePkg, Side: vc,
+			Normal: Not(panicked), Panics: panicked, PV: App(f.w.AppFun("apppv", sorts, SIface, 0), SIface, as...)}
+		ante := append([]Term{}, typing...)
+		for _, r := range gfc.Requires {
+			t, err := env.EvalBool(r)
+			if err != nil {
+				f.fail("closure summary of %s: %v", cl.fn.Name(), err)
+				bad = true
+				break
+			}
+			ante = append(ante, t)
+		}
+		if bad {
+			continue
+		}
+		var posts []Term
+		for _, e := range gfc.Ensures {
+			t, err := env.EvalBool(e)
+			if err != nil {
+				f.fail("closure summary of %s: %v", cl.fn.Name(), err)
+				bad = true
+				break
+			}
+			if !mentionsExit(e.E) {
+				t = Implies(Not(panicked), t)
+			}
+			posts = append(posts, t)
+		}
+		if bad || len(posts) == 0 {
+			continue
+		}
+		vc.Trusted["callbacks are pure, deterministic and do not depend on state the callee changes (closure summary of "+fnDisplay(cl.fn)+")"] = true
+		vc.Comment("closure summary of " + fnDisplay(cl.fn))
+		vc.Assume(Implies(st.PC, Forall(qv, Implies(And(ante...), And(posts...)), []Term{panicked})))
+	}
 }
